@@ -64,6 +64,13 @@ CHECKS.update({
    note="Soundness only (optimality not judged); mission control replaced by a constant probability; local-channel usability judged by the bandwidth hint as lnd documents; one genuine finding repaired in /repo (fix: bb5e6cd, blinded path htlc_maximum).", ref="§4 C19"),
 })
 
+CHECKS.update({
+ "C14": dict(cat="model_checking", engine="explore+synctest",
+   technique="level-synchronous BFS (through the explore engine) over all chain, client, rescan and restart operation sequences of a 7-block, 1-tx, 2-spender universe on the real TxNotifier and HeightHintCache, each world in a synctest bubble, judged after every call by a reference chain, per-client views and the read-back hint cache",
+   text="Every operation sequence up to depth 6-8 (thorough 7-13, two notifier restarts) incl. reorgs within the safety limit, registrations with any true hint, cancellations, rescan completions racing with blocks (hint-read window and ConnectTip/NotifyHeight split as explicit interleavings) is executed on the real notifier; canonical-state dedup; a blocked send with the lock held is detected by bubble quiescence.",
+   note="Reorgs while the notifier is down are excluded (lnd's documented limitation); stale-scan candidates are recorded, not reported; two genuine findings repaired in /repo (fix: 8ff4b07, 8d4968e); thorough adds a free-running -race pass.", ref="§4 C14"),
+})
+
 NOT_YET = "harness not built yet in this round (planned, see DESIGN.md §4)"
 
 def main():
